@@ -99,6 +99,8 @@ DEFAULT = {
     'minRadius': None,      # constraints.minRadius (None = kawin's default 3e-10)
     'Rmin': None,           # precipitateParameters[p].Rmin (None = default 3e-10)
     'beta': 1,              # setBetaBinary(functionType): 1 = Perez et al. (default), 2 = as for multicomponent systems
+    'effdist': None,        # enableEffectiveDiffusionDistance(<bool>); None = leave kawin's default (enabled)
+    'theta': None,          # setTheta(<float>): scaling of the incubation time; None = kawin's default (2)
     'strain': None,         # {phase name: {'eig': [e11, e22, e33], 'calc': bool}}: elastic strain energy per phase (travels with
                             # the phase name); calc=True makes the aspect ratio follow from the strain energy (needle shape)
 }
@@ -221,6 +223,10 @@ def build_model(cfg, therm=None, names=None, elements=None):
     if c['minRadius'] is not None:
         m.setConstraints(minRadius=c['minRadius'])
     m.setThermodynamics(therm)
+    if c['effdist'] is not None:
+        m.enableEffectiveDiffusionDistance(c['effdist'])
+    if c['theta'] is not None:
+        m.setTheta(c['theta'])
     if c['beta'] != 1:
         m.setBetaBinary(c['beta'])
     if c['record']:
